@@ -89,7 +89,10 @@ Set(ch) ==
   /\ LET asgs == AsgsOf(ch, Len(stack) + 1)
          s    == SetCall(cfg, asgs)
          st   == IF s.ok THEN Append(stack, [snap |-> cfg, rec |-> s.r, asgs |-> asgs]) ELSE stack
-         la   == IF s.ok THEN OK ELSE [op |-> "fail", asgs |-> asgs, pc |-> PartialSet(cfg, asgs)]
+         la   == IF s.ok THEN OK
+                 ELSE [op |-> "fail", asgs |-> asgs, pc |-> PartialSet(cfg, asgs),
+                       \* should an implementation accept the call instead of raising, get must still see these
+                       vis |-> { i \in 1..Len(asgs) : ~Shadowed(asgs, i) }]
      IN /\ cfg' = s.n
         /\ stack' = st
         /\ last' = la
